@@ -21,7 +21,9 @@ import (
 	"verif/sched"
 )
 
-var opNames = []string{"record-plain", "record-file-link", "record-dir-link", "record-cycle", "record-twice-reached-link", "run", "sign-verify", "dump-load", "load-key", "verify-chain", "match-rules", "substitute"}
+var opNames = []string{"record-plain", "record-file-link", "record-dir-link", "record-cycle", "record-twice-reached-link", "run", "sign-verify", "dump-load", "load-key", "verify-chain", "match-rules", "substitute", "dsse-control-characters", "malformed-pattern"}
+
+var uniq int
 
 // prepare builds the private data of operation op for thread slot; returns the operation body.
 func prepare(base string, op string, slot int) func() string {
@@ -132,6 +134,43 @@ func prepare(base string, op string, slot int) func() string {
 				return "error: " + err.Error()
 			}
 			return "rules accepted"
+		}
+	case "dsse-control-characters":
+		return func() string {
+			l := gen.Link(fmt.Sprintf("l%d", slot), gen.Arts(), gen.Arts())
+			l.ByProducts = map[string]interface{}{"stdout": fmt.Sprintf("line %d\n\ttabbed\r\n", slot), "return-value": float64(0)}
+			env := &intoto.Envelope{}
+			if err := env.SetPayload(l); err != nil {
+				return "error: " + err.Error()
+			}
+			if err := env.Sign(gen.Key("ed1").Full); err != nil {
+				return "error: " + err.Error()
+			}
+			p := filepath.Join(dir, "e.link")
+			os.Remove(p)
+			if err := env.Dump(p); err != nil {
+				return "error: " + err.Error()
+			}
+			back, err := intoto.LoadMetadata(p)
+			if err != nil {
+				return "error: " + err.Error()
+			}
+			if err := back.VerifySignature(gen.Key("ed1").Pub); err != nil {
+				return "error: " + err.Error()
+			}
+			return gen.JSON(back.GetPayload())
+		}
+	case "malformed-pattern":
+		// a pattern nobody has used before in this process (a warning cache would be written, not only read)
+		uniq++
+		pat := fmt.Sprintf("[never-seen-%d", uniq)
+		return func() string {
+			items := []interface{}{gen.Step("s", 1, nil, [][]string{{"ALLOW", pat}, {"ALLOW", "*"}}, [][]string{{"ALLOW", "*"}})}
+			md := map[string]intoto.Metadata{"s": &intoto.Metablock{Signed: gen.Link("s", gen.Arts("a", gen.H(byte(slot))), gen.Arts())}}
+			if err := intoto.VerifyArtifacts(items, md); err != nil {
+				return "error"
+			}
+			return "accepted"
 		}
 	case "substitute":
 		return func() string {
@@ -387,7 +426,7 @@ func replay(c *mcx.Ctx, raw json.RawMessage) (string, string) {
 func init() {
 	mcx.Register(&mcx.Driver{
 		ID: "C16", Run: run, Replay: replay,
-		Rule: "operation multisets: every unordered pair of 12 operations on private data (RecordArtifacts on a plain tree / file symlink / followed directory symlink / true cycle / a link reached on two ways; InTotoRun; sign+verify; dump+load; key loading; InTotoVerifyWithDirectory of a private chain; VerifyArtifacts; SubstituteParameters) as 2 threads x 1 operation, 2 threads x 2 operations over a sub-menu (thorough: larger sub-menu and 3 threads x 1 recording operation); " +
+		Rule: "operation multisets: every unordered pair of 14 operations on private data (RecordArtifacts on a plain tree / file symlink / followed directory symlink / true cycle / a link reached on two ways; InTotoRun; sign+verify; dump+load; key loading; InTotoVerifyWithDirectory of a private chain; VerifyArtifacts; SubstituteParameters; a DSSE envelope with control characters set, signed, dumped and loaded; VerifyArtifacts with a malformed pattern never used before) as 2 threads x 1 operation, 2 threads x 2 operations over a sub-menu (thorough: larger sub-menu and 3 threads x 1 recording operation); " +
 			"for each, EVERY schedule with at most 2 (thorough 3) preemptions, where scheduling points are all accesses to every package-level variable of package in_toto (discovered by the overlay rewriter, so a hoisted buffer or cache becomes a point automatically) and all sync.Mutex/RWMutex/Once/Map operations; oracle per schedule: no two conflicting accesses unordered by happens-before (vector clocks over the shimmed sync operations), no deadlock or panic, and every operation's result equals the result of the same operation made alone. states = executions, transitions = points passed.",
 		Assumptions: []string{
 			"memory-model effects below the granularity of variable accesses and races inside dependencies are outside (a free-running -race pass of the same bodies is auxiliary only)",
